@@ -32,6 +32,7 @@ def main() -> int:
     except Exception:
         pass
     os.environ.setdefault("STACKSCOPE_VERIF", "1")
+    os.environ["VERIF_TIER_EFFECTIVE"] = args.tier  # read by harness shards (forked workers) to scale their budgets
     pid = args.pid.upper()
     try:
         mod = importlib.import_module(f"harness.{pid.lower()}")
